@@ -32,7 +32,9 @@
 
 #define MAXN 12
 #define SEQCAP 8000
-#define LOGCAP (MAXN * SEQCAP)
+#define NS (2 * MAXN) // send streams: node id, or MAXN + node id for a
+                    // second sending thread on the same socket
+#define LOGCAP (NS * SEQCAP)
 #define TAGBASE 0xB5090000u
 #define MAXPIPES 64
 
@@ -58,10 +60,19 @@ typedef struct node {
 	_Atomic long     nlog;
 	_Atomic int      sstop;
 	int              chunk_max, chunk_fit;
-	_Atomic uint64_t hi_from[MAXN];  // 1 + highest seq logged per sender
-	_Atomic uint64_t win_lo[MAXN];   // lock-step window start per sender
-	_Atomic long     win_got[MAXN];  // logged with seq >= win_lo
-	uint64_t         next_seq;       // one sending thread at a time
+	_Atomic uint64_t hi_from[NS];  // 1 + highest seq logged per stream
+	_Atomic uint64_t win_lo[NS];   // lock-step window start per stream
+	_Atomic long     win_got[NS];  // logged with seq >= win_lo
+	_Atomic long     cnt_from[NS]; // logged in total per stream
+	uint64_t         next_seq;     // primary stream: one thread at a time
+	uint64_t         next_seq2;    // second stream (its own thread)
+	pthread_t        sth2;
+	bool             srun2;
+	int              flow_w;       // > 0: flow-controlled sender, window
+	int              flow_n;
+	uint32_t         flow_mask;
+	long             flow_base[MAXN];
+	_Atomic int      sdone;
 	_Atomic long     sent;
 	int              burst_n, burst_big, pace_us;
 	uint64_t         rkey;
@@ -81,7 +92,7 @@ static int         g_fwd_id = -1;
 
 // raw forwarding bookkeeping
 static pthread_mutex_t fmtx = PTHREAD_MUTEX_INITIALIZER;
-static uint32_t        fwd_at[MAXN][SEQCAP]; // forwarding index, 0 = never
+static uint32_t        fwd_at[NS][SEQCAP];   // forwarding index, 0 = never
 static uint32_t        fcount;
 static int8_t          dexcl[SEQCAP];        // direct send: excluded leaf or -1
 static _Atomic uint32_t pipe_of[MAXN];       // forwarder's pipe id per leaf
@@ -99,6 +110,15 @@ static int g_abort;
 		snprintf(k_, sizeof(k_), "C09/%s/%s", clause, disc); \
 		vf_violation(k_, __VA_ARGS__); \
 	} while (0)
+
+static __thread int t_second; // this thread sends the node's second stream
+static _Atomic long  cooked_hdr_sends;
+
+static uint64_t
+stream_sent(int st)
+{
+	return st < MAXN ? N[st].next_seq : N[st - MAXN].next_seq2;
+}
 
 static uint32_t
 be32(const uint8_t *p)
@@ -236,7 +256,7 @@ record(node *n, nng_msg *m)
 		VIOL("corrupt", g_mode, "%s: node %d received a body of %zu bytes that fails its self-check (%d)", g_mode, n->id, nng_msg_len(m), rv);
 		return;
 	}
-	if ((tag & 0xffffff00u) != TAGBASE || (tag & 0xff) >= MAXN || seq >= SEQCAP) {
+	if ((tag & 0xffffff00u) != TAGBASE || (tag & 0xff) >= NS || seq >= SEQCAP) {
 		VIOL("phantom", g_mode, "%s: node %d received tag %08x seq %llu that no node sends", g_mode, n->id, tag, (unsigned long long) seq);
 		return;
 	}
@@ -249,6 +269,7 @@ record(node *n, nng_msg *m)
 	atomic_store(&n->nlog, k + 1);
 	if (seq + 1 > atomic_load(&n->hi_from[from])) atomic_store(&n->hi_from[from], seq + 1);
 	if (seq >= atomic_load(&n->win_lo[from])) atomic_fetch_add(&n->win_got[from], 1);
+	atomic_fetch_add(&n->cnt_from[from], 1);
 }
 
 static void *
@@ -308,11 +329,18 @@ static nng_msg *
 make_msg(node *n, size_t sz, uint64_t *seqp)
 {
 	nng_msg *m;
-	uint64_t seq = n->next_seq++;
+	uint64_t seq = t_second ? n->next_seq2++ : n->next_seq++;
 	if (seq >= SEQCAP) vf_harness_fail("seq cap");
 	sz = vf_body_size(sz);
 	if (nng_msg_alloc(&m, sz) != 0) vf_harness_fail("msg alloc");
-	vf_body_make(nng_msg_body(m), sz, TAGBASE | (uint32_t) n->id, seq);
+	vf_body_make(nng_msg_body(m), sz, TAGBASE | (uint32_t) (n->id + (t_second ? MAXN : 0)), seq);
+	if (!n->raw && (vf_mix64(seq * 31 + (uint64_t) n->id) & 7) == 0) {
+		// a cooked send ignores whatever header the message carries (it may
+		// come from a raw socket): nothing of it may reach the peers
+		nng_msg_header_append_u32(m, 0xdeadbeefu);
+		if (seq & 8) nng_msg_header_append_u32(m, (uint32_t) seq);
+		atomic_fetch_add(&cooked_hdr_sends, 1);
+	}
 	if (seqp) *seqp = seq;
 	return m;
 }
@@ -335,9 +363,9 @@ send_one(node *n, size_t sz, int style, nng_aio *aio, bool has_hdr, uint32_t hwo
 	if (style == 1 && !has_hdr) {
 		size_t   len = vf_body_size(sz);
 		uint8_t *buf = malloc(len);
-		seq = n->next_seq++;
+		seq = t_second ? n->next_seq2++ : n->next_seq++;
 		if (seq >= SEQCAP) vf_harness_fail("seq cap");
-		vf_body_make(buf, len, TAGBASE | (uint32_t) n->id, seq);
+		vf_body_make(buf, len, TAGBASE | (uint32_t) (n->id + (t_second ? MAXN : 0)), seq);
 		rv = nng_send(n->s, buf, len, 0);
 		free(buf);
 		send_result(n, rv, "nng_send");
@@ -368,17 +396,56 @@ pick_size(vf_rng *r, int big)
 }
 
 #define WIN 8
+typedef struct {
+	node *n;
+	int   second;
+} sarg;
+static sarg sargs[MAXN][2];
+
+// flow-controlled sending: at most flow_w messages of this sender are not yet
+// logged by the slowest receiver, and the windows of all senders were chosen
+// so that no queue on any path can be full.  Then nothing may be dropped, no
+// matter which pipes are busy.
+static bool
+flow_wait(node *n, long need)
+{
+	uint64_t end = vf_now_ns() + 30000000000ull;
+	for (;;) {
+		int missing = -1;
+		for (int q = 0; q < MAXN; q++) {
+			if ((n->flow_mask & (1u << q)) && atomic_load(&N[q].cnt_from[n->id]) - n->flow_base[q] < need) missing = q;
+		}
+		if (missing < 0) return true;
+		if (vf_now_ns() > end) {
+			VIOL("not-offered", "flow-controlled", "%s: all nodes send at once, each keeping at most its share of the smallest queue on its paths outstanding (node %d: window %d, sendbuf %d); peer %d (recvbuf %d) logged only %ld of the first %ld message(s) after 30 s: one was dropped although no queue could be full", g_mode, n->id, n->flow_w, n->sendbuf, missing, N[missing].recvbuf, atomic_load(&N[missing].cnt_from[n->id]) - n->flow_base[missing], need);
+			return false;
+		}
+		vf_usleep(50);
+	}
+}
+
 static void *
 sender_main(void *arg)
 {
-	node    *n = arg;
+	sarg    *sa = arg;
+	node    *n  = sa->n;
 	vf_rng   r;
 	nng_aio *aios[WIN];
-	int      left = n->burst_n;
-	vf_rng_seed(&r, n->rkey, 99);
+	int      left = sa->second ? n->burst_n / 2 : n->burst_n;
+	t_second = sa->second;
+	vf_rng_seed(&r, n->rkey, 99 + (uint64_t) sa->second);
 	for (int i = 0; i < WIN; i++) {
 		if (nng_aio_alloc(&aios[i], NULL, NULL) != 0) vf_harness_fail("aio");
 		nng_aio_set_timeout(aios[i], 120000);
+	}
+	if (n->flow_w > 0) {
+		long m;
+		for (m = 0; m < n->flow_n; m++) {
+			if (m >= n->flow_w && !flow_wait(n, m - n->flow_w + 1)) break;
+			send_one(n, pick_size(&r, 0), n->sstyle == 3 ? 2 : n->sstyle, aios[0], false, 0);
+		}
+		if (m == n->flow_n && flow_wait(n, m)) vf_stat("flow_delivered", m * __builtin_popcount(n->flow_mask));
+		left = 0;
 	}
 	while (left > 0 && !atomic_load(&n->sstop)) {
 		int chunk = 1 + (int) vf_below(&r, (uint32_t) (vf_chance(&r, 1, 2) ? n->chunk_fit : n->chunk_max));
@@ -405,6 +472,7 @@ sender_main(void *arg)
 		if (n->pace_us) vf_usleep((int) vf_below(&r, (uint32_t) n->pace_us));
 	}
 	for (int i = 0; i < WIN; i++) nng_aio_free(aios[i]);
+	if (!sa->second) atomic_store(&n->sdone, 1);
 	return NULL;
 }
 
@@ -414,8 +482,19 @@ start_sender(node *n)
 	n->chunk_max = 3 * n->sendbuf + 2;
 	n->chunk_fit = n->sendbuf;
 	atomic_store(&n->sstop, 0);
-	if (pthread_create(&n->sth, NULL, sender_main, n) != 0) vf_harness_fail("thread");
+	atomic_store(&n->sdone, 0);
+	sargs[n->id][0] = (sarg){ n, 0 };
+	if (pthread_create(&n->sth, NULL, sender_main, &sargs[n->id][0]) != 0) vf_harness_fail("thread");
 	n->srun = true;
+}
+
+// a second thread sending on the same socket at the same time (own stream)
+static void
+start_sender2(node *n)
+{
+	sargs[n->id][1] = (sarg){ n, 1 };
+	if (pthread_create(&n->sth2, NULL, sender_main, &sargs[n->id][1]) != 0) vf_harness_fail("thread");
+	n->srun2 = true;
 }
 
 static void
@@ -423,6 +502,8 @@ join_sender(node *n)
 {
 	if (n->srun) pthread_join(n->sth, NULL);
 	n->srun = false;
+	if (n->srun2) pthread_join(n->sth2, NULL);
+	n->srun2 = false;
 }
 
 // ------------------------------------------------------------------ lock-step
@@ -529,9 +610,39 @@ barrier(uint32_t senders, int retry_ms, int tries)
 	return extra;
 }
 
+// All nodes in 'senders' with a window >= 1 send 'nmsg' messages each at the
+// same time, flow-controlled (see flow_wait).  The paths must be idle when
+// this starts.  Returns false after a verdict.
+static bool
+flow_phase(uint32_t senders, const int *w, int nmsg)
+{
+	uint32_t run = 0;
+	for (int s = 0; s < MAXN; s++) {
+		if (!(senders & (1u << s)) || w[s] < 1) continue;
+		node *x      = &N[s];
+		x->flow_w    = w[s];
+		x->flow_n    = nmsg;
+		x->flow_mask = expect_mask(s);
+		x->burst_n   = 0;
+		for (int q = 0; q < MAXN; q++) x->flow_base[q] = atomic_load(&N[q].cnt_from[s]);
+		run |= 1u << s;
+	}
+	for (int s = 0; s < MAXN; s++) {
+		if (run & (1u << s)) start_sender(&N[s]);
+	}
+	for (int s = 0; s < MAXN; s++) {
+		if (run & (1u << s)) {
+			join_sender(&N[s]);
+			N[s].flow_w = 0;
+		}
+	}
+	if (run) vf_stat("flow_phases", 1);
+	return !g_abort;
+}
+
 // ------------------------------------------------------------------ checker
 typedef struct {
-	long checked, drops, offered, echo_free, order_checked;
+	long checked, drops, offered, echo_free, order_checked, second_stream;
 } tally;
 
 static void
@@ -541,27 +652,28 @@ analyze(tally *t)
 		node *n = &N[q];
 		if (!n->used || n->is_fwd) continue;
 		long     cnt = atomic_load(&n->nlog);
-		uint8_t *seen[MAXN];
-		long     got[MAXN];
-		int64_t  last[MAXN];
+		uint8_t *seen[NS];
+		long     got[NS];
+		int64_t  last[NS];
 		struct {
 			uint32_t pipe;
 			int64_t  last;
-		} pl[MAXN][8];
-		int      npl[MAXN];
+		} pl[NS][8];
+		int      npl[NS];
 		uint32_t lastf = 0;
 		memset(got, 0, sizeof(got));
 		memset(npl, 0, sizeof(npl));
-		for (int s = 0; s < MAXN; s++) {
+		for (int s = 0; s < NS; s++) {
 			seen[s] = calloc(SEQCAP, 1);
 			last[s] = -1;
 		}
 		for (long k = 0; k < cnt; k++) {
-			int      from = n->log[k].from;
+			int      from = n->log[k].from; // stream
+			int      fn   = from % MAXN;    // sending node
 			uint32_t seq  = n->log[k].seq;
 			uint32_t pipe = n->log[k].pipe;
 			t->checked++;
-			if (from == q) {
+			if (fn == q) {
 				if (g_fwd_id >= 0) {
 					VIOL("echo", "raw-forward", "%s: leaf %d got its own message (seq %u) back through the raw socket: the forwarded message named the arrival pipe in its header and was sent to that pipe anyway", g_mode, q, seq);
 				} else {
@@ -569,25 +681,27 @@ analyze(tally *t)
 				}
 				continue;
 			}
-			if (!N[from].used || !expect[from][q]) {
-				VIOL("from-non-peer", g_mode, "%s: node %d received (node %d, seq %u) but is not connected to that node (BUS does not forward)", g_mode, q, from, seq);
+			if (!N[fn].used || !expect[fn][q]) {
+				VIOL("from-non-peer", g_mode, "%s: node %d received (node %d, seq %u) but is not connected to that node (BUS does not forward)", g_mode, q, fn, seq);
 				continue;
 			}
-			if (seq >= N[from].next_seq) {
-				VIOL("phantom", g_mode, "%s: node %d received (node %d, seq %u) but that node has sent only %llu messages", g_mode, q, from, seq, (unsigned long long) N[from].next_seq);
+			if (seq >= stream_sent(from)) {
+				VIOL("phantom", g_mode, "%s: node %d received (stream %d, seq %u) but that stream has sent only %llu messages", g_mode, q, from, seq, (unsigned long long) stream_sent(from));
 				continue;
 			}
 			if (from == g_fwd_id && dexcl[seq] == q) {
 				VIOL("echo", "raw-origin-header", "%s: a raw send whose header named the pipe of leaf %d was delivered to that leaf (seq %u)", g_mode, q, seq);
 			}
 			if (seen[from][seq]) {
-				VIOL("duplicate", g_mode, "%s: node %d received (node %d, seq %u) twice", g_mode, q, from, seq);
+				VIOL("duplicate", g_mode, "%s: node %d received (stream %d, seq %u) twice", g_mode, q, from, seq);
 				continue;
 			}
 			seen[from][seq] = 1;
 			got[from]++;
-			// order among what is delivered: per sender and arrival pipe;
-			// per sender alone when every pair kept one pipe for the whole case
+			if (from >= MAXN) t->second_stream++;
+			// order among what is delivered: per sending thread and arrival
+			// pipe; per sending thread alone when every pair kept one pipe
+			// for the whole case
 			int i;
 			for (i = 0; i < npl[from]; i++) {
 				if (pl[from][i].pipe == pipe) break;
@@ -599,21 +713,21 @@ analyze(tally *t)
 			}
 			if (i < 8) {
 				if ((int64_t) seq < pl[from][i].last) {
-					VIOL("reordered", "same-pipe", "%s: node %d received seq %u after seq %lld from node %d on one pipe", g_mode, q, seq, (long long) pl[from][i].last, from);
+					VIOL("reordered", "same-pipe", "%s: node %d received seq %u after seq %lld of stream %d on one pipe", g_mode, q, seq, (long long) pl[from][i].last, from);
 				}
 				pl[from][i].last = seq;
 				t->order_checked++;
 			}
 			if (!g_pipekeyed) {
 				if ((int64_t) seq < last[from]) {
-					VIOL("reordered", "sender", "%s: node %d received seq %u after seq %lld from node %d", g_mode, q, seq, (long long) last[from], from);
+					VIOL("reordered", "sender", "%s: node %d received seq %u after seq %lld of stream %d", g_mode, q, seq, (long long) last[from], from);
 				}
 				last[from] = seq;
 			}
 			if (g_fwd_known) {
 				uint32_t f = fwd_at[from][seq];
 				if (f == 0) {
-					VIOL("phantom", g_mode, "%s: leaf %d received (node %d, seq %u) which the forwarder never sent", g_mode, q, from, seq);
+					VIOL("phantom", g_mode, "%s: leaf %d received (stream %d, seq %u) which the forwarder never sent", g_mode, q, from, seq);
 				} else if (f < lastf) {
 					VIOL("reordered", "forward-order", "%s: leaf %d received the raw socket's %u-th send after its %u-th", g_mode, q, f, lastf);
 				} else {
@@ -621,15 +735,16 @@ analyze(tally *t)
 				}
 			}
 		}
-		for (int s = 0; s < MAXN; s++) {
-			if (N[s].used && expect[s][q] && s != q) {
-				long sent = (long) N[s].next_seq;
+		for (int s = 0; s < NS; s++) {
+			int sn = s % MAXN;
+			if (N[sn].used && expect[sn][q] && sn != q) {
+				long sent = (long) stream_sent(s);
 				t->offered += sent;
 				t->drops += sent - got[s];
 			}
 			free(seen[s]);
 		}
-		t->echo_free += (long) n->next_seq;
+		t->echo_free += (long) (n->next_seq + n->next_seq2);
 	}
 }
 
@@ -679,6 +794,7 @@ report(const tally *t)
 	vf_stat("dropped_whole", t->drops);
 	vf_stat("order_checked", t->order_checked);
 	vf_stat("sent", t->echo_free);
+	vf_stat("received_from_second_sender_thread", t->second_stream);
 }
 
 // ------------------------------------------------------------------ mesh
@@ -690,6 +806,23 @@ min_depth(int s)
 		if (expect[s][q] && N[q].used && N[q].open && N[q].recvbuf < d) d = N[q].recvbuf;
 	}
 	return d;
+}
+
+// windows for a flow-controlled phase in a mesh: every receiver's queue is
+// shared out among the neighbours that send to it
+static void
+mesh_windows(int n, int stale, int *w)
+{
+	for (int s = 0; s < n; s++) {
+		w[s] = N[s].sendbuf - stale;
+		for (int q = 0; q < n; q++) {
+			if (!expect[s][q] || q == s) continue;
+			int deg = 0;
+			for (int z = 0; z < n; z++) deg += z != q && expect[z][q];
+			int share = (N[q].recvbuf - stale) / (deg ? deg : 1);
+			if (share < w[s]) w[s] = share;
+		}
+	}
 }
 
 static void
@@ -738,6 +871,8 @@ mesh_case(long idx, vf_rng *r)
 		}
 	}
 	wait_links();
+	int rdeg[MAXN];
+	for (int i = 0; i < n; i++) rdeg[i] = N[i].degree;
 	if (!bufs_first) {
 		for (int i = 0; i < n; i++) node_set_bufs(&N[i], sb[i], rb[i]);
 	}
@@ -754,6 +889,14 @@ mesh_case(long idx, vf_rng *r)
 		ok = lockstep(s, b, r, "fresh-mesh");
 		if (ok && b == d) vf_stat("lockstep_full_depth", 1);
 	}
+	// P1b: everybody at once, flow-controlled: nothing may be dropped
+	uint32_t all = 0;
+	int      fw[MAXN];
+	for (int i = 0; i < n; i++) all |= 1u << i;
+	if (ok) {
+		mesh_windows(n, 0, fw);
+		ok = flow_phase(all, fw, (int) vf_range(r, 40, vf_tier ? 400 : 150));
+	}
 
 	// P2: free-running bursts from every node, overflow allowed
 	int nextid = n, joined = 0, kills = 0, resizes = 0;
@@ -764,6 +907,7 @@ mesh_case(long idx, vf_rng *r)
 			N[i].pace_us   = churn ? (int) vf_range(r, 100, 500) : vf_chance(r, 1, 5) ? 0 : (int) vf_range(r, 100, 1500);
 			if (vf_chance(r, 1, 6) && n > 2) N[i].burst_n = 0; // a silent node
 			start_sender(&N[i]);
+			if (N[i].burst_n && vf_chance(r, 1, 3)) start_sender2(&N[i]);
 		}
 		int acts = churn ? (int) vf_range(r, 6, 14) : resize ? (int) vf_range(r, 3, 8) : 0;
 		for (int a = 0; a < acts; a++) {
@@ -796,6 +940,35 @@ mesh_case(long idx, vf_rng *r)
 				start_sender(j);
 				vf_msleep((int) vf_range(r, 2, 15));
 				join_sender(j);
+				// before it leaves: every resident it is linked to must have
+				// been offered something of the joiner (the joiner keeps
+				// sending until then), and the joiner something of every
+				// linked resident that is still sending
+				{
+					uint64_t end = vf_now_ns() + 30000000000ull;
+					for (;;) {
+						int in_missing = -1, out_missing = -1;
+						for (int i = 0; i < n; i++) {
+							if (!expect[i][nextid]) continue;
+							if (atomic_load(&j->hi_from[i]) == 0 && N[i].srun && !atomic_load(&N[i].sdone)) in_missing = i;
+							if (atomic_load(&N[i].hi_from[nextid]) == 0) out_missing = i;
+						}
+						if (in_missing < 0 && out_missing < 0) {
+							vf_stat("joiner_offered_both_ways", 1);
+							break;
+						}
+						if (vf_now_ns() > end) {
+							if (out_missing >= 0) {
+								VIOL("not-offered", "joiner-to-resident", "mesh-churn: a node joined (pipes up on both sides) and kept sending small messages for 30 s; resident node %d never logged one", out_missing);
+							} else {
+								VIOL("not-offered", "resident-to-joiner", "mesh-churn: resident node %d kept sending for 30 s after a node joined it; the joiner never logged one of its messages", in_missing);
+							}
+							break;
+						}
+						if (out_missing >= 0) send_one(j, 24, 0, NULL, false, 0);
+						vf_usleep(300);
+					}
+				}
 				if (vf_chance(r, 1, 2)) vf_msleep((int) vf_range(r, 1, 5));
 				// leaves while the others keep sending to it
 				stop_receiver(j);
@@ -819,13 +992,22 @@ mesh_case(long idx, vf_rng *r)
 		}
 	}
 
-	// P3: steady meshes: after the overflow, bursts that fit arrive again
-	uint32_t all = 0;
-	for (int i = 0; i < n; i++) all |= 1u << i;
-	if (ok && !churn) {
+	// P3: after the overflow (and after joiners left / pipes were re-made):
+	// every currently connected peer is offered again what fits
+	if (ok && churn >= 2) {
+		// not judged, only saves probe retries: give the dialers a moment
+		uint64_t end = vf_now_ns() + 3000000000ull;
+		for (;;) {
+			bool up = true;
+			for (int i = 0; i < n; i++) up = up && atomic_load(&N[i].adds) - atomic_load(&N[i].rems) >= rdeg[i];
+			if (up || vf_now_ns() > end) break;
+			vf_usleep(300);
+		}
+	}
+	if (ok) {
 		int extra = barrier(all, 2000, 6);
 		if (extra < 0) {
-			VIOL("not-offered", "after-overflow-probe", "mesh/after-overflow: a single small message per sender, repeated 6 times 2 s apart, never reached some connected peer after a burst");
+			VIOL("not-offered", churn ? "after-churn-probe" : "after-overflow-probe", "%s: a single small message per sender, repeated 6 times 2 s apart, never reached some connected peer after a burst%s", g_mode, churn ? " with joiners / closed pipes (links are re-dialled within 20 ms)" : "");
 		} else {
 			vf_stat("barrier_extra_probes", extra);
 			rounds = (int) vf_range(r, 2, 4);
@@ -834,14 +1016,17 @@ mesh_case(long idx, vf_rng *r)
 				int d = min_depth(s) - extra;
 				if (d < 1) continue;
 				int b = vf_chance(r, 1, 2) ? d : (int) vf_range(r, 1, (uint32_t) d);
-				ok = lockstep(s, b, r, "after-overflow");
+				ok = lockstep(s, b, r, churn ? "after-churn" : "after-overflow");
 				if (ok && b == d) vf_stat("lockstep_full_depth", 1);
+				if (ok && churn) vf_stat("lockstep_after_churn", (long) b);
+			}
+			if (ok && extra == 0) {
+				mesh_windows(n, 0, fw);
+				ok = flow_phase(all, fw, (int) vf_range(r, 40, vf_tier ? 400 : 150));
+				if (churn) vf_stat("flow_phases_after_churn", 1);
 			}
 			barrier(all, 2000, 2);
 		}
-	} else if (ok) {
-		// let the traffic drain so that late echoes / duplicates are logged
-		if (barrier(all, 300, 3) < 0) vf_stat("churn_drain_incomplete", 1);
 	}
 	vf_pt_off();
 	close_all();
@@ -891,13 +1076,13 @@ forwarder_main(void *arg)
 		} else {
 			atomic_fetch_add(&fwd_hdr_ok, 1);
 		}
-		if (vf_body_check(nng_msg_body(m), nng_msg_len(m), &tag, &seq) != 0 || (tag & 0xffffff00u) != TAGBASE || (tag & 0xff) >= MAXN || seq >= SEQCAP) {
+		if (vf_body_check(nng_msg_body(m), nng_msg_len(m), &tag, &seq) != 0 || (tag & 0xffffff00u) != TAGBASE || (tag & 0xff) >= NS || seq >= SEQCAP) {
 			VIOL("corrupt", g_mode, "%s: raw socket received a body of %zu bytes that fails its self-check", g_mode, nng_msg_len(m));
 			nng_msg_free(m);
 			continue;
 		}
 		int from = (int) (tag & 0xff);
-		atomic_store(&pipe_of[from], pid);
+		atomic_store(&pipe_of[from % MAXN], pid);
 		pthread_mutex_lock(&fmtx);
 		if (fwd_at[from][seq] != 0) {
 			VIOL("duplicate", g_mode, "%s: raw socket received (node %d, seq %llu) twice", g_mode, from, (unsigned long long) seq);
@@ -958,9 +1143,10 @@ raw_case(long idx, vf_rng *r)
 	g_fwd_id    = fa;
 	if (variant == 4 && k < 2) k = 2;
 	vf_case_begin(idx, "raw %s leaves=%d bufs_first=%d jitter=%d/%dus", g_mode, k, bufs_first, jit_pm, jit_us);
+	bool roomy = vf_chance(r, 2, 5); // queues deep enough for a flow-controlled phase
 	for (int i = 0; i < k + 2; i++) {
-		sb[i] = vf_chance(r, 1, 3) ? (int) vf_range(r, 1, 2) : (int) vf_range(r, 1, 16);
-		rb[i] = vf_chance(r, 1, 3) ? (int) vf_range(r, 1, 2) : (int) vf_range(r, 1, 16);
+		sb[i] = roomy ? (int) vf_range(r, 2 * (uint32_t) k, 16) : vf_chance(r, 1, 3) ? (int) vf_range(r, 1, 2) : (int) vf_range(r, 1, 16);
+		rb[i] = roomy ? (int) vf_range(r, 2 * (uint32_t) k, 16) : vf_chance(r, 1, 3) ? (int) vf_range(r, 1, 2) : (int) vf_range(r, 1, 16);
 	}
 	for (int i = 0; i < k; i++) {
 		node *x   = node_open(i, vf_chance(r, 1, 4), sb[i], rb[i], bufs_first);
@@ -1020,23 +1206,12 @@ raw_case(long idx, vf_rng *r)
 		ok = lockstep(i, b, r, "forwarded");
 	}
 	// P1b: direct raw sends (the harness forwarder owns the socket with us)
-	for (int rep = 0; rep < 6 && ok && variant == 0; rep++) {
-		// the unjudged kind comes last: where it went is unknown, so nothing
-		// exact may follow it
-		int      kind = rep < 4 ? (int) vf_below(r, 2) : 2;
+	for (int rep = 0; rep < 4 && ok && variant == 0; rep++) {
+		int      kind = (int) vf_below(r, 2);
 		int      excl = (int) vf_below(r, (uint32_t) k);
 		uint32_t mask = kind == 1 ? (leaves & ~(1u << excl)) : leaves;
-		uint32_t bogus = 0x7fff0000u | vf_below(r, 0xffff);
+		uint32_t bogus = 0;
 		if (kind == 1 && atomic_load(&pipe_of[excl]) == 0) continue;
-		if (kind == 2) {
-			// not stated by the property where this goes: safety only
-			uint64_t q = direct_send(F, 2, -1, bogus);
-			bogus_sent++;
-			settle(300);
-			for (int i = 0; i < k; i++) bogus_got += atomic_load(&N[i].hi_from[fa]) > q;
-			direct[2]++;
-			continue;
-		}
 		window_open(fa, mask);
 		direct_send(F, kind, excl, bogus);
 		ok = window_wait(fa, mask, 1, kind == 0 ? "raw-no-header" : "raw-origin-header");
@@ -1044,6 +1219,24 @@ raw_case(long idx, vf_rng *r)
 			direct[kind]++;
 			vf_stat("lockstep_delivered", __builtin_popcount(mask));
 		}
+	}
+
+	// P1c: all leaves at once, flow-controlled so that neither the raw
+	// socket's queues nor a leaf's can be full: nothing may be dropped, and
+	// the origin pipes are busy while their own messages are forwarded
+	int fw[MAXN];
+	if (ok && variant != 4) {
+		for (int i = 0; i < k; i++) fw[i] = sb[i] < depth / k ? sb[i] : depth / k;
+		ok = flow_phase(leaves, fw, (int) vf_range(r, 40, vf_tier ? 300 : 120));
+	}
+	// P1d: a header that names no attached pipe.  Where this goes is not
+	// stated by the property (safety only), so nothing exact may follow it.
+	for (int rep = 0; rep < 2 && ok && variant == 0; rep++) {
+		uint64_t q = direct_send(F, 2, -1, 0x7fff0000u | vf_below(r, 0xffff));
+		bogus_sent++;
+		settle(300);
+		for (int i = 0; i < k; i++) bogus_got += atomic_load(&N[i].hi_from[fa]) > q;
+		direct[2]++;
 	}
 
 	// P2: all leaves at once, forwarder sometimes slow, direct sends mixed in
@@ -1054,6 +1247,7 @@ raw_case(long idx, vf_rng *r)
 			N[i].burst_big = vf_chance(r, 1, 4) ? 70000 : 0;
 			N[i].pace_us   = vf_chance(r, 1, 5) ? 0 : (int) vf_range(r, 100, 1500);
 			start_sender(&N[i]);
+			if (vf_chance(r, 1, 3)) start_sender2(&N[i]);
 		}
 		if (variant == 0) {
 			int nd = (int) vf_range(r, 5, 40);
@@ -1081,6 +1275,7 @@ raw_case(long idx, vf_rng *r)
 				if (d < 1) break;
 				ok = lockstep(i, vf_chance(r, 1, 2) ? d : (int) vf_range(r, 1, (uint32_t) d), r, "forwarded-after-overflow");
 			}
+			if (ok && extra == 0) ok = flow_phase(leaves, fw, (int) vf_range(r, 40, vf_tier ? 300 : 120));
 			barrier(leaves, 2000, 2);
 		}
 	} else if (ok) {
@@ -1349,6 +1544,7 @@ main(int argc, char **argv)
 	}
 	vf_stat("raw_headers_checked", atomic_load(&fwd_hdr_ok));
 	vf_stat("raw_forwarded", atomic_load(&fwd_count));
+	vf_stat("cooked_sends_with_header", atomic_load(&cooked_hdr_sends));
 	vf_quiesce(1, 10000);
 	vf_nng_fini("C09");
 	return vf_finish();
